@@ -647,6 +647,10 @@ class Executor:
                 z = [f for f in cands if not f.args and base(norm_ty(f.ret)) == base(selfty)]
                 if len(z) == 1:
                     return z[0]
+            if trait.startswith("From<") and short == "from":
+                z = [f for f in cands if len(f.args) == 1 and base(norm_ty(f.ret)) == base(selfty) and base(norm_ty(f.args[0][1])) == base(rhs or "")]
+                if len(z) == 1:
+                    return z[0]
             for f in cands:
                 if not f.args:
                     continue
